@@ -24,6 +24,9 @@ class StateMixin:
         if ending == 'raise-unpicklable':
             import threading
             raise ValueError('carries a lock', threading.Lock())
+        if ending == 'return-unpicklable':
+            import threading
+            return threading.Lock()
         if kwargs.get('last') == 'none':
             self.user_state = None          # the last assignment resets the state
         elif kwargs.get('last') == 'falsy':
